@@ -299,23 +299,32 @@ def run_real(W: World, case):
         for i, op in enumerate(case["setup"]):
             apply_op(W, op, i + len(op))
         entry = snapshot(W)
-        stack, ctx_err, out, probes = [], False, [], []
+        stack, ctx_err, out, probes, last_ctx = [], False, [], [], None
         for i, c in enumerate(case["cmds"]):
             variant = i + len(c)
-            if c == "enter":
-                ctx = W.pp.testing.reset_pyparsing_context()
+            if c in ("enter", "reenter"):
+                if c == "reenter" and last_ctx is not None:
+                    ctx, last_ctx = last_ctx, None      # the very same object is entered again
+                else:
+                    if c == "reenter":
+                        last_ctx = None
+                    ctx = W.pp.testing.reset_pyparsing_context()
                 try:
                     ctx.save() if variant % 2 else ctx.__enter__()
                     stack.append(ctx)
                     err = "ok"
                 except Exception as e:  # noqa: BLE001
                     err, ctx_err = type(e).__name__, True
-            elif c == "exit":
+            elif c in ("exit", "exitcopy"):
                 if stack:
                     ctx = stack.pop()
+                    last_ctx = ctx
                     try:
                         v = variant % 3
-                        if v == 0:
+                        if c == "exitcopy":
+                            cp = ctx.copy()
+                            cp.restore() if v else cp.__exit__(None, None, None)
+                        elif v == 0:
                             ctx.__exit__(None, None, None)
                         elif v == 1:
                             ctx.restore()
@@ -324,10 +333,19 @@ def run_real(W: World, case):
                             if ctx.__exit__(KeyError, exc, None):
                                 raise common.HarnessError("__exit__ swallowed the exception")
                         err = "ok"
+                    except common.HarnessError:
+                        raise
                     except Exception as e:  # noqa: BLE001
                         err, ctx_err = type(e).__name__, True
                 else:
                     err = "ok"
+            elif c == "restorelast":
+                err = "ok"
+                if last_ctx is not None:
+                    try:
+                        last_ctx.restore()
+                    except Exception as e:  # noqa: BLE001
+                        err, ctx_err = type(e).__name__, True
             else:
                 err = apply_op(W, c, variant)
             out.append([snapshot(W), Sym(err), len(stack), ctx_err])
@@ -401,6 +419,7 @@ def oracle(W, case, entry, tr, probes=None):
 
     prev = entry
     stack = []
+    last_ent = None
     for i, (c, (snap, err, depth, ctx_err)) in enumerate(zip(case["cmds"], tr)):
         err = str(err)
         o_prev, o_now = obs(prev), obs(snap)
@@ -421,16 +440,33 @@ def oracle(W, case, entry, tr, probes=None):
             if isinstance(snap[I_WS], str) and ws != "".join(sorted(set(snap[I_WS]))):
                 add("default-whitespace-not-used-by-new-expression", i, "".join(sorted(set(snap[I_WS]))), ws,
                     "default_ws_scope_partial")
-        if c == "enter":
+        if c in ("enter", "reenter"):
+            if c == "reenter":
+                last_ent = None
             if err != "ok":
                 add(f"enter-raises:{err}", i, "no exception from __enter__", err, "restore_total_and_exact")
             else:
                 stack.append(prev)
             if snap != prev:
                 add("enter-changes-state", i, "save() changes nothing", "state changed", "restore_total_and_exact")
-        elif c == "exit":
+        elif c == "restorelast":
+            if last_ent is not None:
+                if err != "ok":
+                    add(f"restore-again-raises:{err}", i, "no exception from restore()", err, "restore_exact")
+                else:
+                    o_ent = obs(last_ent)
+                    for k in o_ent:
+                        if o_ent[k] != o_now[k]:
+                            add(f"restore-again-not-exact:{k}", i, {k: o_ent[k]}, {k: o_now[k]}, "restore_exact")
+                    if last_ent[I_BUILTINS] != snap[I_BUILTINS]:
+                        add("restore-again-not-exact:builtin-whiteChars", i, "built-ins as when the context was entered",
+                            "differ", "restore_exact")
+            elif snap != prev:
+                add("restore-again-without-context-changes-state", i, "no change", "state changed", "restore_exact")
+        elif c in ("exit", "exitcopy"):
             if stack:
                 ent = stack.pop()
+                last_ent = ent
                 if err != "ok":
                     add(f"exit-raises:{err}", i, "no exception from __exit__", err, "restore_total_and_exact")
                 else:
@@ -705,17 +741,19 @@ def gen_case(rng, W, malformed=False):
     for _ in range(n):
         r = rng.random()
         if r < 0.12 and depth < 4:
-            cmds.append("enter")
+            cmds.append("enter" if rng.random() < 0.7 else "reenter")
             depth += 1
         elif r < 0.22 and (depth > 1 or (malformed and r < 0.18)):
-            cmds.append("exit")
+            cmds.append("exit" if rng.random() < 0.7 else "exitcopy")
             depth = max(0, depth - 1)
+        elif r < 0.25:
+            cmds.append("restorelast")
         else:
             op = gen_op(rng, W, users)
             users += op[0] in ("new", "copy", "wrap")
             cmds.append(op)
     if not malformed:
-        cmds.extend(["exit"] * depth)
+        cmds.extend([rng.choice(["exit", "exit", "exitcopy"]) for _ in range(depth)])
     elif rng.random() < 0.5:
         cmds.extend(["exit"] * rng.randint(0, depth + 1))
     return {"setup": setup, "cmds": cmds}
@@ -723,7 +761,8 @@ def gen_case(rng, W, malformed=False):
 
 MODE_ENTRIES = [[], [["packrat", None, False]], [["packrat", 64, False]], [["lr", None, False]], [["lr", 8, False]]]
 MODE_OPS = [["packrat", 5, False], ["packrat", 5, True], ["packrat", None, True], ["lr", None, False],
-            ["lr", None, True], ["lr", 3, True], ["lr", 0, True], ["disable"], "enter", "exit"]
+            ["lr", None, True], ["lr", 3, True], ["lr", 0, True], ["disable"], "enter", "exit", "reenter",
+            "exitcopy", "restorelast"]
 
 
 def exhaustive_mode_cases(maxlen):
@@ -735,9 +774,9 @@ def exhaustive_mode_cases(maxlen):
             for seq in itertools.product(MODE_OPS, repeat=n):
                 d, ok = 1, True
                 for c in seq:
-                    if c == "enter":
+                    if c in ("enter", "reenter"):
                         d += 1
-                    elif c == "exit":
+                    elif c in ("exit", "exitcopy"):
                         d -= 1
                         if d < 1:
                             ok = False
@@ -786,9 +825,10 @@ def run(ctx):
     ctx.rule.append(
         "histories: entry configuration = 0..4 random setters from the pristine import state; body = 1..14 commands "
         "(45% mode setters incl. force=True and bad capacities, other setters incl. unknown flag names, expression "
-        "new/copy/composite/set_whitespace_chars, nested enter/exit to depth 4) wrapped in a context; malformed stream = "
+        "new/copy/composite/set_whitespace_chars, nested enter/exit to depth 4 incl. re-entering the last exited context "
+        "object, exit through ctx.copy(), and restore() called again on an exited context) wrapped in a context; malformed stream = "
         "unbalanced enter/exit; exhaustive stream = 5 mode entry configurations x all sequences up to length L over "
-        "10 mode commands; non-trivial = the body changes at least one observable setting; every built-in's whiteChars "
+        "13 mode commands; non-trivial = the body changes at least one observable setting; every built-in's whiteChars "
         "is compared at every context exit (the witness of the fixed finding unsynced_builtin_whitechars_not_restored "
         "runs from the corpus as an ordinary regression case)"
     )
@@ -860,7 +900,7 @@ def run(ctx):
         for c in diff_cases[:50]:
             for j in range(1, len(c["cmds"]) + 1):
                 pre = [x for x in c["cmds"][:j]]
-                d = sum(1 for x in pre if x == "enter") - sum(1 for x in pre if x == "exit")
+                d = sum(1 for x in pre if x in ("enter", "reenter")) - sum(1 for x in pre if x in ("exit", "exitcopy"))
                 extra.append({"setup": c["setup"], "cmds": ["enter", *pre, *(["exit"] * max(d + 1, 1))]})
         extra += exhaustive_mode_cases(3)
         extra += [gen_case(srng, W) for _ in range(ctx.budget(20000, 60000))]
